@@ -45,6 +45,9 @@ pub struct CbcCase {
     /// caller arrives: a breaker that is open with a longer (or unbounded) wait still rejects it
     #[serde(default)]
     pub late_probe: Option<u8>,
+    /// callers (by index, mod 64) whose first poll starts on an exhausted cooperative budget
+    #[serde(default)]
+    pub starve_mask: u64,
 }
 
 fn small_config() -> BoxedStrategy<CbConfig> {
@@ -134,10 +137,14 @@ fn case_strategy(tier: Tier) -> BoxedStrategy<CbcCase> {
         prop::collection::vec(caller, 2..=callers_hi),
         prop_oneof![3 => Just(None), 1 => gen::instant(200).prop_map(Some)],
         prop::collection::vec(any::<u8>(), 0..=48),
-        (prop_oneof![3 => Just(0u64), 1 => 1u64..=25, 1 => Just(10u64)], prop_oneof![2 => Just(None), 1 => (0u8..3).prop_map(Some)]),
+        (
+            prop_oneof![3 => Just(0u64), 1 => 1u64..=25, 1 => Just(10u64)],
+            prop_oneof![2 => Just(None), 1 => (0u8..3).prop_map(Some)],
+            prop_oneof![4 => Just(0u64), 1 => (0u64..64).prop_map(|k| 1 << k), 1 => any::<u64>()],
+        ),
     )
         .prop_map(
-            |(cfg, fallback, clones, callers, force_open_at, order, (fallback_ms, late_probe))| CbcCase {
+            |(cfg, fallback, clones, callers, force_open_at, order, (fallback_ms, late_probe, starve_mask))| CbcCase {
                 cfg,
                 fallback,
                 clones,
@@ -146,6 +153,7 @@ fn case_strategy(tier: Tier) -> BoxedStrategy<CbcCase> {
                 order,
                 fallback_ms,
                 late_probe,
+                starve_mask,
             },
         );
     // a large permitted_calls_in_half_open and more slow trial callers than that at once
@@ -197,6 +205,7 @@ fn case_strategy(tier: Tier) -> BoxedStrategy<CbcCase> {
             order,
             fallback_ms: 0,
             late_probe: None,
+            starve_mask: 0,
         });
     prop_oneof![40 => general, 1 => crowd].boxed()
 }
@@ -411,11 +420,22 @@ async fn interp(case: &CbcCase) -> Verdict {
                         saw_delayed_poll = true;
                     }
                     let lg = log.clone();
+                    let starved = (case.starve_mask >> (i % 64)) & 1 == 1;
                     let wrapped = async move {
-                        lg.note("first_poll", i as i64, 0);
+                        // a starved caller's admission is decided at a later poll of this instant,
+                        // when other callers may already have come and gone: the per-caller rules
+                        // tied to "the state at its first poll" do not apply to it (the rules over
+                        // the whole history do)
+                        if !starved {
+                            lg.note("first_poll", i as i64, 0);
+                        }
                         fut.await
                     };
-                    task[i] = Some(sim.spawn_call(wrapped, map_outcome));
+                    let tk = sim.spawn_call(wrapped, map_outcome);
+                    if starved {
+                        sim.starve_first_poll(tk);
+                    }
+                    task[i] = Some(tk);
                 }
             }
         }
@@ -709,6 +729,9 @@ async fn interp(case: &CbcCase) -> Verdict {
     }
     if case.late_probe.is_some() {
         v.classes.push("caller_after_a_long_quiet_time");
+    }
+    if case.starve_mask & ((1u64 << n.min(63)) - 1) != 0 {
+        v.classes.push("first_poll_with_exhausted_cooperative_budget");
     }
     if cfg.wait_huge > 0 {
         v.classes.push("never_auto_recover_wait");
